@@ -36,7 +36,7 @@ m = {
     "engines": [{"name": "tlc+bbv", "path": "bbv/", "serves_properties": [c["property_id"] for c in checks],
                  "kind_free_text": "explicit TLA+ specifications (spec/*.tla) model-checked with TLC; TLC-generated behaviours/cases replayed into the real code (spec->code) and recorded executions of the real code validated by trace specifications (code->spec)"}],
     "checks": checks,
-    "notes": "All checks: ./check Cxx --tier quick|thorough; exit 0 held / 1 VIOLATION / 2 machinery failure. known_findings.json lists open findings (explained only via their structural key) and fixed ones (suppress nothing). Genuine defects repaired in /repo as separate 'fix:' commits (D1-D5, D5b, D7-D16, D14b); D6 is open.",
+    "notes": "All checks: ./check Cxx --tier quick|thorough; exit 0 held / 1 VIOLATION / 2 machinery failure. known_findings.json lists open findings (explained only via their structural key) and fixed ones (suppress nothing). Genuine defects repaired in /repo as separate 'fix:' commits (D1-D5, D5b, D7-D17, D14b); D6 is open.",
     "not_applicable": na,
 }
 (V / "MANIFEST.json").write_text(json.dumps(m, indent=1) + "\n")
